@@ -45,6 +45,8 @@ class BaseWindow(ContextManager):
         self.t = blessed.Terminal(stream=out_stream, force_styling=True)
         self.out_stream = out_stream
         self.hide_cursor = hide_cursor
+        # True while a render has hidden the cursor and not yet shown it again
+        self._render_hid_cursor = False
         self._last_lines_by_row: Dict[int, Optional[FmtStr]] = {}
         self._last_rendered_width: Optional[int] = None
         self._last_rendered_height: Optional[int] = None
@@ -73,7 +75,7 @@ class BaseWindow(ContextManager):
         traceback: Optional[TracebackType] = None,
     ) -> None:
         logger.debug("running BaseWindow.__exit__")
-        if self.hide_cursor:
+        if self.hide_cursor or self._render_hid_cursor:
             self.write(self.t.normal_cursor)
 
     def on_terminal_size_change(self, height: int, width: int) -> None:
@@ -193,6 +195,7 @@ class FullscreenWindow(BaseWindow, ContextManager["FullscreenWindow"]):
 
         for_stdout = self.fmtstr_to_stdout_xform()
         if not self.hide_cursor:
+            self._render_hid_cursor = True
             self.write(self.t.hide_cursor)
         if height != self._last_rendered_height or width != self._last_rendered_width:
             self.on_terminal_size_change(height, width)
@@ -226,6 +229,7 @@ class FullscreenWindow(BaseWindow, ContextManager["FullscreenWindow"]):
         self._last_lines_by_row = current_lines_by_row
         if not self.hide_cursor:
             self.write(self.t.normal_cursor)
+            self._render_hid_cursor = False
 
 
 class CursorAwareWindow(BaseWindow, ContextManager["CursorAwareWindow"]):
@@ -453,6 +457,7 @@ class CursorAwareWindow(BaseWindow, ContextManager["CursorAwareWindow"]):
         # caching of write and tc (avoiding the self. lookups etc) made
         # no significant performance difference here
         if not self.hide_cursor:
+            self._render_hid_cursor = True
             self.write(self.t.hide_cursor)
 
         # TODO race condition here?
@@ -512,6 +517,7 @@ class CursorAwareWindow(BaseWindow, ContextManager["CursorAwareWindow"]):
         self._last_lines_by_row = current_lines_by_row
         if not self.hide_cursor:
             self.write(self.t.normal_cursor)
+            self._render_hid_cursor = False
         return offscreen_scrolls
 
 
